@@ -10,6 +10,7 @@ grouping built with the independent ordering model.
 from __future__ import annotations
 
 import copy
+import zlib
 from collections import Counter, OrderedDict
 from functools import reduce
 
@@ -79,6 +80,13 @@ def cases(ctx):
             for r_ in t[1:]:
                 if rng.random() < 0.3:
                     del r_[rng.choice([0, 0, 1]):]
+        if f == 'aggregate-values' and 'failfirst' not in c and zlib.crc32(repr(t).encode('utf-8', 'backslashreplace')) % 4 == 0:
+            # rows that hold the key cells but not (all of) the value cells: such a row still belongs to its group, with None for
+            # what it does not have
+            for r_ in t[1:]:
+                if zlib.crc32(repr(r_).encode('utf-8', 'backslashreplace')) % 3 == 0:
+                    del r_[2 + zlib.crc32(repr(r_[3]).encode()) % 2:]
+            c['shortvalues'] = True
         if f in ('mergeduplicates', 'merge') and rng.random() < 0.5:
             c['missing'] = rng.choice(['NA', 0, 'x'])
             if f in ('mergeduplicates', 'merge'):
@@ -259,7 +267,10 @@ def judge(case, ctx):
             out.append({'kind': 'group-sums-do-not-add-up'})
     elif form == 'aggregate-values':
         got = run(lambda: petl.aggregate(src, keyarg, list, ('id', 'v'), **kw))
-        exp = [khdr + ('value',)] + [keycells(g) + ([(r[idi], r[vi]) for r in g[1]],) for g in groups]
+        cell = lambda r, i: r[i] if i < len(r) else None  # noqa: E731
+        exp = [khdr + ('value',)] + [keycells(g) + ([(cell(r, idi), cell(r, vi)) for r in g[1]],) for g in groups]
+        if case.get('shortvalues') and any(len(r) < 4 for r in rows):
+            ctx.seen('aggregate:rows-without-the-value-cells')
         compare(got, exp)
     elif form == 'aggregate-len':
         got = run(lambda: petl.aggregate(src, keyarg, len, **kw))
